@@ -32,6 +32,9 @@ var hostilePool = func() []hx.Val {
 		hx.Sym("RED"), hx.Sym("BOGUS"),
 		hx.Time(time.Date(2021, 5, 6, 7, 8, 9, 10, time.UTC)), hx.Time(time.Date(10000, 1, 1, 0, 0, 0, 0, time.UTC)), hx.Time(time.Date(-1, 12, 31, 23, 59, 59, 0, time.UTC)),
 		hx.Time(time.Date(9999, 12, 31, 23, 59, 59, 999999999, time.UTC)), hx.Time(time.Date(0, 1, 1, 0, 0, 0, 0, time.UTC)),
+		// in their own zone the year is within 0..9999, in UTC (as the response writes times) it is not
+		hx.Time(time.Date(9999, 12, 31, 23, 30, 0, 0, time.FixedZone("", -3600))), hx.Time(time.Date(0, 1, 1, 0, 30, 0, 0, time.FixedZone("", 3600))),
+		hx.Str("9999-12-31T23:30:00-01:00"), hx.Str("0000-01-01T00:30:00+01:00"), hx.Time(time.Date(9999, 12, 31, 22, 30, 0, 0, time.FixedZone("", -3600))),
 		{K: "bytes", S: "xyz"},
 		hx.Map(hx.KV{Key: "a", V: hx.I64(1)}), hx.List(hx.I64(1)),
 		{K: "nilptr"}, {K: "struct"},
